@@ -38,7 +38,7 @@ def run_check(pid, tier, seed, nworkers=None, verbose=True):
     watchdog = float(getattr(mod, "WATCHDOG", {}).get(tier, 1500))
     for s in range(nworkers):
         e = dict(env)
-        e["PYTHONHASHSEED"] = HASHSEEDS[(s + seed) % len(HASHSEEDS)]
+        e["PYTHONHASHSEED"] = HASHSEEDS[s % len(HASHSEEDS)]
         out = os.path.join(scratch, f"w{s}.jsonl")
         p = subprocess.Popen(
             [PY, "-m", "vq.worker", pid, tier, str(seed), str(s), str(nworkers), out],
@@ -95,6 +95,7 @@ def run_check(pid, tier, seed, nworkers=None, verbose=True):
                 if r.get("status") in ("error", "timeout") and len(errors) < 8:
                     errors.append({"error": r.get("error"), "tb": r.get("tb"), "case": r.get("case")})
                 for fl in r.get("fails") or []:
+                    fl["_hs"] = r.get("hs")
                     fails.append((fl, r.get("case"), r["i"]))
     for s, why in dead:
         try:
@@ -108,9 +109,18 @@ def run_check(pid, tier, seed, nworkers=None, verbose=True):
     known = Counter()
     violations = []
     seen = set()
+    kinputs = {} if os.environ.get("VQ_IGNORE_KNOWN_INPUTS") else kf.known_inputs(pid)
     for fl, case, idx in fails:
         pred = fl.get("pred")
         if pred and pred in openf:
+            # on the fixed corpus a listed mechanism is keyed by input: a corpus case that is not among the
+            # recorded witnesses of this mechanism (under this hash seed) is a different violation
+            if isinstance(case, dict) and case.get("origin") == "fixed" and pred in kinputs:
+                wid = f"{_digest(case)}:{fl.get('_hs')}"
+                if wid not in kinputs[pred]:
+                    fl = dict(fl, kind=str(fl.get("kind")) + "_new_input_for_listed_mechanism", msg=f"[fixed-corpus case not among the recorded witnesses of {pred}] " + str(fl.get("msg")))
+                    violations.append((fl, case, idx))
+                    continue
             known[pred] += 1
             continue
         sig = (fl.get("kind"), _digest(case))
@@ -126,7 +136,7 @@ def run_check(pid, tier, seed, nworkers=None, verbose=True):
                 f.write(json.dumps({"fail": fl, "case": case, "i": idx}, default=str) + "\n")
             for fl, case, idx in fails:
                 if fl.get("pred") and fl["pred"] in openf:
-                    f.write(json.dumps({"known": fl["pred"], "fail": fl, "case": case, "i": idx}, default=str) + "\n")
+                    f.write(json.dumps({"known": fl["pred"], "fail": fl, "case": case, "i": idx, "wid": f"{_digest(case)}:{fl.get('_hs')}"}, default=str) + "\n")
     lines = []
     vio_kinds = Counter()
     for fl, case, idx in violations:
